@@ -2,6 +2,7 @@ package icmp
 
 import (
 	"context"
+	"errors"
 	"net"
 	"sync"
 	"time"
@@ -9,6 +10,9 @@ import (
 	"github.com/postalsys/muti-metroo/internal/crypto"
 	"github.com/postalsys/muti-metroo/internal/identity"
 )
+
+// ErrSessionClosed is returned by Encrypt and Decrypt once the session has been closed.
+var ErrSessionClosed = errors.New("session closed")
 
 // SessionState represents the state of an ICMP session.
 type SessionState int
@@ -209,6 +213,13 @@ func (s *Session) Encrypt(plaintext []byte) ([]byte, error) {
 	s.mu.RLock()
 	defer s.mu.RUnlock()
 
+	// Close wipes the key. A closed session must never fall back to the
+	// pass-through below: the exit read loop may still hold a reply that was
+	// read before the close, and it would go out in plaintext.
+	if s.closed {
+		return nil, ErrSessionClosed
+	}
+
 	if s.SessionKey == nil {
 		return plaintext, nil
 	}
@@ -223,6 +234,10 @@ func (s *Session) Encrypt(plaintext []byte) ([]byte, error) {
 func (s *Session) Decrypt(ciphertext []byte) ([]byte, error) {
 	s.mu.RLock()
 	defer s.mu.RUnlock()
+
+	if s.closed {
+		return nil, ErrSessionClosed
+	}
 
 	if s.SessionKey == nil {
 		return ciphertext, nil
